@@ -20,12 +20,12 @@ class C03(Prop):
     ID = "C03"
     MODULE = "AwProofs.Props.C03"
     THEOREMS = ["AwProofs.C03." + n for n in (
-        "round_start", "round_end", "window_tolerance", "sound_sqlite", "complete_sqlite_partial", "sorted_desc_sqlite",
-        "limit_sqlite", "count_agrees_sqlite", "sound_memory", "complete_memory", "sorted_desc_memory", "limit_memory",
+        "round_start", "round_end", "window_tolerance", "sound_sqlite", "complete_sqlite", "sorted_desc_sqlite",
+        "limit_sqlite", "count_agrees_sqlite", "sqlite_before_epoch_now_read", "sound_memory", "complete_memory", "sorted_desc_memory", "limit_memory",
         "count_agrees_memory", "missing_memory", "sound_peewee", "complete_peewee", "peewee_clip", "sorted_desc_peewee",
         "limit_peewee", "count_agrees_peewee")]
     WORKERS = 10
-    LEVEL_TEXT = 'Lean 4 theorems on the read functions of the three backend models: sound_B, complete_B (complete_sqlite_partial: without a start bound the event must end at or after 1970; peewee: events up to 24 h, as the property says), sorted_desc_B, limit_B, count_agrees_B, peewee_clip, window_tolerance (the Bucket.get rounding costs at most 1 ms at either edge); models compared with the real backends on random windows (edges placed around event edges, epoch, several UTC offsets)'
+    LEVEL_TEXT = 'Lean 4 theorems on the read functions of the three backend models: sound_B, complete_B (sqlite: unconditional since the repair F22, a read without a start bound has no lower bound; sqlite_before_epoch_now_read: the former pre-1970 counterexample is now read; peewee: events up to 24 h, as the property says), sorted_desc_B, limit_B, count_agrees_B, peewee_clip, window_tolerance (the Bucket.get rounding costs at most 1 ms at either edge); models compared with the real backends on random windows (edges placed around event edges, epoch, several UTC offsets)'
     LEVEL_NOTE = "trusts: Lean kernel + 3 standard axioms; SQLite's julianday/strftime arithmetic in the peewee range filter is a bounded-error parameter: reads within 1 ms of the window start are compared tolerantly"
     TECHNIQUE = "Lean 4 proof over read models + differential correspondence on windowed reads"
     RULE = (
